@@ -136,6 +136,18 @@ def cases(tier):
                        'else': 0, 'reref': None, 'syntax': s}
     yield {'form': 'special'}
     yield {'form': 'late'}
+    # a conditional left by an exception (handled by an enclosing try) or
+    # by dtml-return (in a sub-template): what it remembered is gone, the
+    # next conditional evaluates the name afresh
+    for how in ('raise', 'return'):
+        for where in ('if', 'elif', 'else', 'unless'):
+            for v0 in (('T', ''), ('', 'T'), ('T', 'T2')):
+                for after in ('if', 'unless', 'call+if', 'var'):
+                    idx += 1
+                    yield {'form': 'abort', 'how': how, 'where': where,
+                           'vals': list(v0), 'after': after,
+                           'kinds': ['name'], 'truth': [], 'else': 0,
+                           'reref': None, 'syntax': syntaxes[idx % 3]}
     # branches with an empty body (an empty branch still ends the search),
     # and every kind of false value (all are remembered like true ones)
     for n in (1, 2, 3):
@@ -272,7 +284,7 @@ def build(case):
     ns = {'s2': ['seq', 'list', [['lit', 10], ['lit', 20]]]}
     fz = case.get('falsy')
     for i, k in enumerate(kinds):
-        if k != 'undef' and case['form'] != 'repeat':
+        if k != 'undef' and case['form'] not in ('repeat', 'abort'):
             false = FALSY[fz[i]] if fz else ''
             if isinstance(false, tuple):
                 false = ['seq', 'tuple', []]
@@ -280,6 +292,42 @@ def build(case):
                 false = ['lit', false]
             ns['c%d' % i] = ['probe', i,
                              ['lit', 'T%d' % i] if truth[i] else false]
+    if case['form'] == 'abort':
+        ns = {'c0': ['probeseq', 0, [['lit', v] for v in case['vals']]],
+              'boom': ['raiser', 'boom', 'HA', 'x'], 'rv': ['lit', 'R']}
+        act = [['var', N('boom'), []]] if case['how'] == 'raise' \
+            else [['return', N('rv')]]
+        body = [T('A'), ['var', N('c0'), []]] + act + [T('Z')]
+        w = case['where']
+        first_true = bool(case['vals'][0])
+        if w == 'if':
+            cond = ['if', [[N('c0'), body]], [T('e')] + (
+                [] if first_true else act)]
+        elif w == 'elif':
+            cond = ['if', [[E('0'), [T('n')]], [N('c0'), body]],
+                    [T('e')] + ([] if first_true else act)]
+        elif w == 'else':
+            cond = ['if', [[N('c0'), [T('t')] + (act if first_true else [])]],
+                    body]
+        else:
+            cond = ['unless', N('c0'), body]
+            if first_true:
+                cond = ['if', [[N('c0'), body]], None]
+        if case['how'] == 'raise':
+            first = [['try', [cond], [[[], [T('caught')]]], None]]
+        else:
+            ns['inner'] = ['tmpl', [cond], {}]
+            first = [['var', N('inner'), []]]
+        a = case['after']
+        if a == 'if':
+            then = [['if', [[N('c0'), [T('yes')]]], [T('no')]]]
+        elif a == 'unless':
+            then = [['unless', N('c0'), [T('un')]]]
+        elif a == 'var':
+            then = [['var', N('c0'), []]]
+        else:
+            then = [['call', N('c0')], ['if', [[N('c0'), [T('y')]]], [T('n')]]]
+        return [T('<')] + first + [T('|')] + then + [T('>')], ns
     if case['form'] == 'repeat':
         ns = {'s2': ['seq', 'list', [['lit', 10], ['lit', 20]]]}
         for k in (0, 1):
